@@ -33,6 +33,7 @@ pub fn run_set(args: &Args, mut out: Out) {
         };
         let max_age: u64 = *[0u64, 1, 59, 3600, 2_592_000, 1 << 31, 1 << 40, r.gen_range(0..1 << 40)].choose(&mut r).unwrap();
         let (secure, http_only) = (r.gen_bool(0.5), r.gen_bool(0.5));
+        let expires_s: u64 = if r.gen_bool(0.5) { 0 } else { *[1u64, 86_399, 951_782_400, 4_102_444_799, 253_402_300_799].choose(&mut r).unwrap() };
         let ss = [SameSite::Strict, SameSite::Lax, SameSite::None].choose(&mut r).unwrap().clone();
         let ss_s = match ss {
             SameSite::Strict => "strict",
@@ -49,7 +50,10 @@ pub fn run_set(args: &Args, mut out: Out) {
                 .with_max_age(Duration::from_secs(max_age))
                 .with_secure(secure)
                 .with_http_only(http_only)
-                .with_same_site(ss.clone());
+                .with_same_site(ss.clone())
+                // an expiry date in half of the cookies: its text is outside C15 (and pinned), but the attributes after
+                // and before it must still read back
+                .with_expires(if expires_s == 0 { std::time::SystemTime::UNIX_EPOCH } else { std::time::SystemTime::UNIX_EPOCH + Duration::from_secs(expires_s) });
             // two cookies on one response: one set-cookie field per cookie
             let resp = Response::new(200).with_set_cookie(c).with_set_cookie(Cookie::new("other", "v".try_into().unwrap()));
             resp.headers
